@@ -720,6 +720,10 @@ Lemma lex_lookup_nodup_of_cert L rows fuel :
 Proof. intros HL H. exact (lex_lookup_nodup_of_cert_prop L rows fuel HL (cert_parts L rows fuel H)). Qed.
 
 (* ---------- tokens joined by path rewrite plugins ---------- *)
+(* Morpheme::dictionary_id / is_oov / WordId::is_oov as Model/LexSet.v reported_dic / is_oov have them *)
+Definition accessor_shape_ok : bool :=
+  String.eqb LF.dictionary_id_shape "oov->-1;else->dic" && (LF.IS_OOV_DIC =? LF.OOV_DIC).
+
 Definition join_shapes_ok : bool :=
   String.eqb LF.join_oov_wid_rule "max-of-parts;non-oov->(dic,MAX_WORD)" && LF.user_dict_per_listing.
 
@@ -791,4 +795,20 @@ Proof.
   unfold join_oov_wid. fold m. rewrite Hom. apply (reported_dic_stamp HL).
   - unfold is_oov in Hom. rewrite E5 in Hom. apply N.eqb_neq in Hom. lia.
   - rewrite E4. vm_compute. discriminate.
+Qed.
+
+
+(* the accessor: dictionary number for every dictionary 0..14 (also 8..14, whose number has the top bit of the nibble set),
+   -1 exactly for out-of-vocabulary ids *)
+Lemma dictionary_id_accessor : layout_ok = true ->
+  (forall d raw, d < 15 -> raw <= WORD_MASK -> reported_dic (stamp d raw) = Z.of_N d /\ is_oov (stamp d raw) = false) /\
+  (forall p, p <= WORD_MASK -> reported_dic (oov_id p) = (-1)%Z /\ is_oov (oov_id p) = true) /\
+  (forall w, reported_dic w = (-1)%Z <-> is_oov w = true).
+Proof.
+  intros HL. destruct (layout_facts HL) as (_ & _ & _ & _ & E5). split; [|split].
+  - intros d raw Hd Hr. split; [exact (reported_dic_stamp HL d raw Hd Hr)|].
+    unfold is_oov. rewrite (dic_of_stamp HL d raw) by (try lia; assumption). rewrite E5. apply N.eqb_neq. lia.
+  - intros p Hp. split; [exact (reported_dic_oov HL p Hp)|].
+    unfold is_oov, oov_id. rewrite E5. rewrite (dic_of_stamp HL 15 p) by (try lia; assumption). reflexivity.
+  - intros w. unfold reported_dic. destruct (is_oov w); split; intros H; try reflexivity; try discriminate. lia.
 Qed.
